@@ -24,6 +24,8 @@ type envState struct {
 	hookStartFails bool
 	timerFires     int
 	marshalled     map[*Obj]Iface
+	gomaxprocs     *Term
+	numcpu         *Term
 	yamlDocs       map[string]interface{} // resolved path -> Iface document (nil = malformed)
 }
 
